@@ -44,3 +44,34 @@ func VerifR14EditDuringSync() {
 	vConverged("final", a, b)
 	zzvsym.Observe(a.Marshal())
 }
+
+// VerifR14bLocalGCOff: a replica that only switched its local garbage
+// collection off (document.WithDisableGC) still takes part in the version
+// vectors like any other: its changes dominate what it had applied (C06), it
+// converges with an ordinary replica, and it does not collect.
+func VerifR14bLocalGCOff() {
+	a, b := vReplica("actA"), vReplica("actB", WithDisableGC())
+	zzvsym.DistinctActors("actA", "actB")
+	s := vNewSrv()
+	typ := zzvsym.IntRange("type", 0, vNumTypes-1)
+	vBase(a, typ)
+	s.sync(0, a)
+	s.sync(1, b)
+	s.sync(0, a)
+	vSkew(a, "skewA")
+	vSkew(b, "skewB")
+	vEdit(a, "a0", typ, 10)
+	s.sync(0, a)
+	s.sync(1, b)
+	s.sync(1, b)
+	vEdit(b, "b0", typ, 20)
+	s.sync(1, b)
+	s.sync(1, b)
+	s.sync(0, a)
+	s.sync(1, b)
+	s.sync(0, a)
+	zzvsym.Reach("quiescent")
+	vConverged("final", a, b)
+	zzvsym.Assert(b.VersionVector().VersionOf(a.ActorID()) > 0, "local-gc-off-replica-tracks-its-peers")
+	zzvsym.Observe(a.Marshal())
+}
